@@ -3,6 +3,7 @@ package main
 import (
 	"fmt"
 	"go/types"
+	"os"
 	"strings"
 
 	"golang.org/x/tools/go/ssa"
@@ -288,6 +289,92 @@ func ruleRULEACTION(c *Ctx) {
 	for _, r := range []struct{ res, ret string }{{"doReduce", "9"}, {"doError", "-3"}, {"doShift", "-1"}, {"conflict", "-1"}} {
 		check("lalr.compiler.ruleAction[prior=shift,res="+r.res+"]", scen{false, -1, r.res}, r.ret,
 			[]string{fmt.Sprintf("addRule(res=%d,rule=9,canShift=true)", k[r.res])})
+	}
+	// reduce/reduce with runtime lookaheads: the planner is asked with the *existing* action (a
+	// grammar rule, or the resolution rule that already groups earlier alternatives) and the new rule
+	const ruleBase = 100
+	for _, sc := range []struct {
+		name         string
+		action       int64
+		idxNew       int64 // planner.index[rule]
+		idxOther     int64 // planner.index[action] (grammar rules only)
+		wantPlanner  bool
+		wantFirstArg string
+	}{
+		{"prior=lookahead-rule,new=lookahead-rule", 4, 0, 1, true, "4"},
+		{"prior=resolution-rule,new=lookahead-rule", 150, 0, -1, true, "150"},
+		{"prior=lookahead-rule,new=plain-rule", 4, -1, 1, false, ""},
+		{"prior=plain-rule,new=lookahead-rule", 4, 0, -1, false, ""},
+		{"prior=resolution-rule,new=plain-rule", 150, -1, -1, false, ""},
+	} {
+		sc := sc
+		cfg := &aiConfig{
+			Load: func(path string, t types.Type) (AV, bool) {
+				switch path {
+				case "c.planner.ruleBase":
+					return avInt{ruleBase, ruleBase}, true
+				case "c.planner.index[9]":
+					return avInt{sc.idxNew, sc.idxNew}, true
+				case "c.planner.index[4]":
+					return avInt{sc.idxOther, sc.idxOther}, true
+				}
+				if os.Getenv("DBG_RA") != "" {
+					fmt.Fprintln(os.Stderr, "load", path)
+				}
+				return nil, false
+			},
+			Call: func(callee string, args []AV, site ssa.CallInstruction) (AV, bool, bool) {
+				switch callee {
+				case "lalr.conflictBuilder.hasConflict":
+					return avBool{false}, true, false
+				case "lalr.conflictBuilder.addRule":
+					return avTuple{}, true, true
+				case "lalr.lookaheadPlanner.addRule":
+					return avSym{Name: "planner.addRule()"}, true, true
+				}
+				return nil, false, false
+			},
+		}
+		outs := aiEval(f, []AV{avSym{Name: "c"}, avInt{sc.action, sc.action}, avSym{Name: "term"}, avInt{9, 9}, avSym{Name: "b"}}, cfg)
+		key := "lalr.compiler.ruleAction[" + sc.name + "]"
+		var probs []string
+		if len(outs) != 1 {
+			probs = append(probs, fmt.Sprintf("%d paths", len(outs)))
+		}
+		for _, o := range outs {
+			if o.Kind != "return" || len(o.Ret) != 1 {
+				probs = append(probs, "path: "+o.String())
+				continue
+			}
+			var planner []aiEvent
+			nReport := 0
+			for _, e := range o.Events {
+				switch e.Callee {
+				case "lalr.lookaheadPlanner.addRule":
+					planner = append(planner, e)
+				case "lalr.conflictBuilder.addRule":
+					nReport++
+				}
+			}
+			if sc.wantPlanner {
+				if len(planner) != 1 || avStr2(o.Ret[0]) != "planner.addRule()" {
+					probs = append(probs, "the planner must be asked once and its answer returned; got "+o.String())
+				} else if a := planner[0].Args; len(a) != 3 || avStr2(a[1]) != sc.wantFirstArg || avStr2(a[2]) != "9" {
+					probs = append(probs, fmt.Sprintf("planner.addRule called with %v, expected (%s, 9): a third alternative must extend the existing resolution rule, not start a new pair", planner[0], sc.wantFirstArg))
+				}
+			} else {
+				if len(planner) != 0 || nReport != 2 || avStr2(o.Ret[0]) != fmt.Sprint(sc.action) {
+					probs = append(probs, "both rules must be reported as a reduce/reduce conflict and the earlier action kept; got "+o.String())
+				}
+			}
+		}
+		if len(probs) > 0 {
+			c.Bad(rule, key, f.Pos(), "%s", strings.Join(uniqStrings(probs), " | "))
+		} else if sc.wantPlanner {
+			c.Ok(rule, key, f.Pos(), "planner.addRule(%s, 9) decides", sc.wantFirstArg)
+		} else {
+			c.Ok(rule, key, f.Pos(), "reported as an unresolved reduce/reduce conflict, earlier action kept")
+		}
 	}
 	// reduce/reduce: either a lookahead resolution rule, or the earlier rule is kept and both are reported
 	outs := run(scen{false, 4, "doShift"})
